@@ -109,6 +109,77 @@ def run(tier: str) -> int:
             if a != impl[k]:
                 ck.py_violation(lines[k], impl[k], f"rendering without the metadata nodes differs: {a}",
                                 py=f"stripped case: {b}")
+    # 4. the same statement on the render() / str() path, with objects that expand under tagify() among the siblings
+    #    (an expansion to 0 or several nodes moves every later sibling: a metadata node after it must still leave no trace)
+    import props.c09 as c09
+    from ops_tagify import rank_terms
+
+    def strip(n):
+        k = n[0]
+        if k == "tag":
+            return ("tag", n[1], n[2], n[3], [strip(c) for c in n[4] if not is_meta(c)])
+        if k == "tobjL":
+            return ("tobjL", n[1], [strip(c) for c in n[2] if not is_meta(c)])
+        if k == "tobj1":
+            return ("tobj1", n[1], strip(n[2]))
+        return n
+
+    def is_meta(n):
+        return n[0] in ("meta", "dep")
+
+    def sprinkle(n, p):
+        k = n[0]
+        if k == "tag":
+            return ("tag", n[1], n[2], n[3], sprinkle_list(n[4], p))
+        if k == "tobjL":
+            return ("tobjL", n[1], sprinkle_list(n[2], p))
+        if k == "tobj1" and not is_meta(n[2]):
+            return ("tobj1", n[1], sprinkle(n[2], p))
+        return n
+
+    def sprinkle_list(ks, p):
+        out = []
+        for c in ks:
+            while rng.random() < p:
+                out.append(("meta", rng.randint(0, 9)))
+            out.append(sprinkle(c, p))
+        while rng.random() < p:
+            out.append(("meta", rng.randint(0, 9)))
+        return out
+
+    def no_meta_result(n):
+        """a tobj1 whose single result is itself a metadata node is replaced by it: not a position of the sibling list"""
+        k = n[0]
+        if k == "tobj1":
+            return not is_meta(n[2]) and no_meta_result(n[2])
+        if k == "tag":
+            return all(no_meta_result(c) for c in n[4])
+        if k == "tobjL":
+            return all(no_meta_result(c) for c in n[2])
+        return True
+
+    full, pairs = [], []
+    for _ in range(ck.budget(700, 12000)):
+        base = [c09.rand_t(rng, rng.randint(1, 4)) for _ in range(rng.randint(1, 4))]
+        base = [b for b in base if no_meta_result(b)]
+        with_m = sprinkle_list(base, rng.choice([0.2, 0.5]))
+        if not any(is_meta(c) for c in with_m) and not any(has_meta(c) for c in with_m if c[0] == "tag"):
+            with_m = with_m + [("meta", 1)]
+        without = [strip(c) for c in with_m if not is_meta(c)]
+        a = f"render_full_list {enodes(rank_terms(list(with_m)))}"
+        b = f"render_full_list {enodes(rank_terms(list(without)))}"
+        pairs.append((len(full), a, b))
+        full += [a, b]
+    res = core.impl_many(full)
+    for k, a, b in pairs:
+        ra, rb = res[k], res[k + 1]
+        ck.holds_checked += 1
+        ha = ra.split(" ")[1] if ra.startswith("ok ") else ra
+        hb = rb.split(" ")[1] if rb.startswith("ok ") else rb
+        if ha != hb:
+            ck.py_violation(a, ra[:600], f"render() of a list with metadata nodes differs from render() of the same list without them: {rb[:300]}",
+                            py=f"with metadata: {a}\nwithout: {b}")
+    ck.tagc("render_full_list(meta vs stripped)", len(pairs))
     return ck.finish()
 
 
